@@ -20,6 +20,9 @@ ORIGIN = {
        "different semantics and a change of when or how often something is evaluated)",
     8: "fresh sub-agent given only the property text and a scratch worktree (round 8: a large refactoring commit with one hidden "
        "slip and a change confined to shared definitions)",
+    9: "fresh sub-agent given only the property text and a scratch worktree (round 9: a Python modernisation / typing clean-up with "
+       "a semantic side effect and a diagnostics / logging addition with a side effect); checks run with exploration budgets of "
+       "200 s / 420 s for this round",
 }
 
 
